@@ -1334,3 +1334,23 @@ Proof.
   repeat (apply Forall_cons; [match goal with |- line_wf ?l => exists (removelast l); split; [reflexivity|cbn [removelast]; repeat constructor; discriminate] end|]).
   apply Forall_nil.
 Qed.
+
+(* ---- vi_prefix (vi.c) as C TEXT (coq/TrRepeat2.v, proved there for property C09; restated here because C07's count semantics rest on
+   it): for EVERY oracle that answers vi_read() / vi_back() as the key-source model of coq/TrRepeat.v says, the translated vi_prefix
+   returns vi_prefix_m: a count starts with 1..9, every following digit is read (no bound on their number), the value is folded with
+   the saturating step `if (n < 100000000) n = n * 10 + c - '0'` -- which is MotCountDefs.add_digit (C07_tr_digit_step) --, the key
+   that ends the count is pushed back; the result is below 10^9 (no signed overflow is reached).  A change of the loop (seeded/C07k:
+   the saturation test moved into the loop condition) breaks this proof. *)
+From NV Require CLiteExt TrTerm TrRepeat TrRepeat2.
+Section C07_translated_7.
+Import CLite CLiteProps GenCFuncs CLiteExt TrTerm TrRepeat TrRepeat2.
+Theorem C07_tr_vi_prefix : forall (ext : oracle) kt, reads_ok ext kt -> back_ok ext kt -> forall (m : mem) (s : src) d fuel,
+  src_at kt m s -> (S (S (length (keys s))) < fuel)%nat ->
+  exists m', callx ext cprog fuel (S (S d)) F_vi_prefix [] m = Ok (VInt (fst (vi_prefix_m s)), m') /\
+             src_at kt m' (snd (vi_prefix_m s)) /\ keeps kt m m' /\ 0 <= fst (vi_prefix_m s) < 1000000000.
+Proof. exact tr_vi_prefix. Qed.
+Print Assumptions C07_tr_vi_prefix.
+Theorem C07_tr_digit_step : forall n (c : N), TrRepeat2.digit_step n (Z.of_N c) = MotCountDefs.add_digit n c.
+Proof. intros n c. reflexivity. Qed.
+Print Assumptions C07_tr_digit_step.
+End C07_translated_7.
